@@ -7,6 +7,7 @@ python3 gen/gen_reg.py r1 0 harness/regs/r1/src/gen.rs --queries 6 --entries 4
 python3 gen/gen_reg.py r6 0 harness/regs/r6/src/gen.rs --queries 40 --entries 30
 python3 gen/gen_reg.py r8 0 harness/regs/r8/src/gen.rs --queries 20 --entries 12
 python3 gen/gen_reg.py r10 0 harness/regs/r10/src/gen.rs --queries 24 --entries 16
+python3 gen/gen_reg.py r9 0 harness/regs/r9/src/gen.rs --queries 24 --entries 14
 python3 gen/gen_reg.py p6a 0 harness/regs/p6a/src/gen.rs --queries 12 --entries 0
 python3 gen/gen_reg.py p6b 0 harness/regs/p6b/src/gen.rs --queries 12 --entries 0
 python3 gen/gen_reg.py p6c 0 harness/regs/p6c/src/gen.rs --queries 12 --entries 0
